@@ -83,6 +83,7 @@ class PipelineResult:
         self.parsed = None
         self.scores = None
         self.raw_scores = None
+        self.proteins = None
         self.descs = None
         self.models = None
         self.files = {}
@@ -156,6 +157,11 @@ def run_pipeline(tables, cfg, workdir, name, fmt="pin", row_group=None, sched_de
             res.descs = list(descs)
             if stop_after == "brew" or not cfg.get("confidence"):
                 return res
+            proteins = None
+            if cfg.get("fasta_path"):
+                res.stage = "read_fasta"
+                proteins = mokapot.read_fasta(cfg["fasta_path"], **cfg.get("fasta_kw", {}))
+                res.proteins = proteins
             res.stage = "assign_confidence"
             conf = cfg.get("conf", {})
             prefixes = conf.get("prefixes")
@@ -174,6 +180,7 @@ def run_pipeline(tables, cfg, workdir, name, fmt="pin", row_group=None, sched_de
                 decoys=conf.get("decoys", True),
                 deduplication=conf.get("dedup", True),
                 do_rollup=conf.get("rollup", True),
+                proteins=proteins,
                 rng=cfg["seed"],
             )
             res.stage = "done"
@@ -201,3 +208,41 @@ def parse_result_file(raw):
     header = lines[0].split("\t")
     rows = [ln.split("\t") for ln in lines[1:]]
     return header, rows
+
+
+def fasta_for_tables(tables, seed, subset_p=0.2):
+    """FASTA entries (name, sequence) whose tryptic digest yields exactly the
+    tables' peptides: targets in P###, decoys in decoy_P###; a few peptides are
+    shared between two proteins, a few proteins are subsets / copies of others."""
+    rng = random.Random(f"fasta|{seed}")
+    tp, dp = [], []
+    for t in tables:
+        pi = t["columns"].index("Peptide")
+        for r, is_t in zip(t["rows"], datagen.targets_of(t)):
+            (tp if is_t else dp).append(r[pi])
+    tp = sorted(set(tp))
+    dp = sorted(set(dp))
+    rng.shuffle(tp)
+    rng.shuffle(dp)
+    n_prot = max(6, len(tp) // 3)
+    prots = {f"P{i:03d}": [] for i in range(n_prot)}
+    dprots = {f"decoy_P{i:03d}": [] for i in range(n_prot)}
+    names = list(prots)
+    for i, p in enumerate(tp):
+        prots[names[i % n_prot]].append(p)
+        if rng.random() < 0.08:
+            prots[names[rng.randrange(n_prot)]].append(p)  # shared peptide
+    for i, p in enumerate(dp):
+        dprots["decoy_" + names[i % n_prot]].append(p)
+    # subset / copy proteins
+    k = 0
+    for n in list(names):
+        if rng.random() < subset_p and len(prots[n]) >= 2:
+            sub = prots[n][: rng.randint(1, len(prots[n]))]
+            prots[f"S{k:03d}"] = list(sub)
+            dprots[f"decoy_S{k:03d}"] = list(dprots["decoy_" + n][: max(1, len(sub) - 1)])
+            k += 1
+    entries = [(n, "".join(dict.fromkeys(v))) for n, v in prots.items()]
+    entries += [(n, "".join(dict.fromkeys(v))) for n, v in dprots.items()]
+    rng.shuffle(entries)
+    return entries
